@@ -210,8 +210,22 @@ func traceInvariants(ops []crashfs.Op, counts map[string]int) []traceViolation {
 			}
 		case "mkdir":
 			counts["T3_mkdirs"]++
-			n := nextEffect(ops, k, "mkdir")
-			if n < 0 || ops[n].Kind != "fsync" || ops[n].Path != dirOf(op.Path) {
+			// the parent must be fsynced within the run of mkdirs and directory fsyncs that follows (MkdirAll may create
+			// several levels: every level's parent has to be synced, not only the leaf's)
+			ok := false
+			for i := k + 1; i < len(ops) && !ok; i++ {
+				switch ops[i].Kind {
+				case "open", "close", "mark", "mkdir":
+					continue
+				case "fsync":
+					if ops[i].Path == dirOf(op.Path) {
+						ok = true
+					}
+					continue
+				}
+				break
+			}
+			if !ok {
 				bad(k, fmt.Sprintf("T3 mkdir of %s is not followed by fsync of the parent directory", fileClass(op.Path)), op.Path)
 			}
 		case "unlink", "rmdir":
